@@ -176,6 +176,21 @@ Proof.
   destruct (first_endpoint (binding_urn (binding_of b)) eps) as [[[b' loc] rl]|]; now rewrite seqb_refl, R.
 Qed.
 
+(* samlsp.New with SignRequest gives every RSA / ECDSA key a method that fits it *)
+Theorem samlsp_default_method_fits kt :
+  kt <> KOther ->
+  nonempty (samlsp_default_method kt true) = true /\
+  exists h, signing_context (samlsp_default_method kt true) kt = Ok h.
+Proof. destruct kt; intros H; try congruence; vm_compute; eauto. Qed.
+
+Theorem samlsp_default_flow_signed mbinding hr kt o :
+  kt <> KOther -> mw_start mbinding hr (samlsp_default_method kt true) kt = Ok o ->
+  o = MwRedirect true \/ o = MwPost true.
+Proof.
+  intros Hk H. destruct (samlsp_default_method_fits kt Hk) as [N _].
+  now destruct (mw_start_signed _ _ _ _ _ N H).
+Qed.
+
 (* ================= the hand-assembled AuthnRequest query ================= *)
 Section AuthnQuery.
   Variable sign : string -> string.
